@@ -1,6 +1,6 @@
 (* C02 - Shares are conserved.  Statements only; proofs live in CGT.Proofs. *)
 From Coq Require Import QArith Qcanon ZArith List Bool Sorted.
-Require Import CGT.Model.Num CGT.Model.Match CGT.Proofs.MatchFacts CGT.Proofs.MatchInv CGT.Proofs.Examples.
+Require Import CGT.Model.Num CGT.Model.Match CGT.Proofs.MatchFacts CGT.Proofs.MatchInv CGT.Proofs.MatchUse CGT.Proofs.Examples.
 Import ListNotations.
 Open Scope Qc_scope.
 
@@ -35,6 +35,18 @@ Proof.
   - rewrite E in E'. injection E' as <-. exact HI.
 Qed.
 
+(* No acquisition is over-used.  For every purchase day e of an accepted ledger: the quantity of the Same Day leg of
+   e's own disposal (legs is that disposal's leg list, or [] when e has none) plus claim_of (m_cl s) (dt e) - the total,
+   in day-e units, that all earlier disposals took from e's purchase under the 30-day rule (every 30-day leg to e records
+   its matched quantity times the split ratio there, theorem C01_bnb_leg) - is at most the quantity bought on e. *)
+Theorem C02_acquisition_not_overused : forall w ds s, wf_days ds -> sorted_days ds -> run w ds = inr s ->
+  forall e, In e ds -> hasbuy e = true ->
+  exists legs, (In (dt e, legs) (m_disp s) \/ legs = []) /\ sd_qty legs + claim_of (m_cl s) (dt e) <= bq e.
+Proof.
+  intros w ds s Hwf Hs Hr e He Hb. unfold run in Hr. destruct (prepass false [] ds) as [er|offs]; [discriminate|].
+  exact (mainpass_use w offs ds mst0 s Hwf Hs (Inv0 ds) Hr e He Hb).
+Qed.
+
 (* non-vacuity: a ledger with a same-day leg, a 30-day leg across a split and pool legs meets the hypotheses *)
 Example C02_witness : wf_days ex1 /\ sorted_days ex1 /\
   exists s, run 30 ex1 = inr s /\ List.length (m_disp s) = 3%nat /\ qeqb (m_pq s) (qz 115) = true.
@@ -44,3 +56,4 @@ Print Assumptions C02_bnb_legs_sum.
 Print Assumptions C02_legs_sum.
 Print Assumptions C02_closing_holding.
 Print Assumptions C02_invariant_step.
+Print Assumptions C02_acquisition_not_overused.
